@@ -30,12 +30,17 @@ func drawEntry(t *rapid.T, g *gspec.Grammar, allowBad bool) string {
 		return ""
 	case k == 1 && allowBad:
 		return "NoSuchRule"
+	case k == 2:
+		return EntryEmptyOption // Entrypoint(""): documented to select the first rule
 	}
 	return gspec.Pick(t, g.Entries, "entry")
 }
 
+// EntryEmptyOption makes the adapter pass the option Entrypoint("").
+const EntryEmptyOption = "\x00empty"
+
 func entryRuleName(g *gspec.Grammar, entry string) string {
-	if entry == "" {
+	if entry == "" || entry == EntryEmptyOption {
 		return g.Rules[0].Name
 	}
 	return entry
